@@ -27,8 +27,8 @@ var htmlPayloads = []string{
 }
 
 type c17Case struct {
-	Seed int64 `json:"seed"`
-	Idx  int   `json:"idx"`
+	Seed int64  `json:"seed"`
+	Idx  int    `json:"idx"`
 	Kind string `json:"kind"` // built | parsed
 }
 
